@@ -26,9 +26,14 @@ class Cz:
     # part go through the store and through heartbeat_reduce
     eps = timedelta(0)
     iso = False
+    numeric = False
 
     def ev(self, e, Event):
         data = {"v": e["d"]} if e["d"] != "c" else {"v": "a", "extra": [1]}      # "c" equals "a" except for one more key
+        if self.numeric and e["d"] == "a":
+            # equal data written with different number types (1 == 1.0 == True): equality of data is equality of VALUES
+            self._k = getattr(self, "_k", 0) + 1
+            data = {"v": [1, 1.0, True][self._k % 3]}
         if e["d"] in ("m", "n"):          # "m" and "n": same size, same values, they differ only in which key carries None
             data = {"v": "a", ("title" if e["d"] == "m" else "url"): None}
         ts = self.c.dt(e["ts"])          # an aware datetime at a random UTC offset ...
@@ -44,7 +49,7 @@ class Cz:
         q1, r1 = divmod(e.timestamp - self.c.base, half)
         q2, r2 = divmod(e.duration - self.eps, half)
         z = timedelta(0)
-        out = {"ts": q1 if r1 == z else -99999, "dur": q2 if r2 == z else -99999, "d": "c" if "extra" in e.data else ("m" if "title" in e.data else ("n" if "url" in e.data else str(e.data.get("v", "?"))))}
+        out = {"ts": q1 if r1 == z else -99999, "dur": q2 if r2 == z else -99999, "d": "c" if "extra" in e.data else ("m" if "title" in e.data else ("n" if "url" in e.data else ("a" if not isinstance(e.data.get("v"), str) and e.data.get("v") == 1 else str(e.data.get("v", "?")))))}
         if with_id:
             out["id"] = e.id if isinstance(e.id, int) else -2
         return out
@@ -84,6 +89,7 @@ def run_pure(args):
     from aw_transform import heartbeat_merge, heartbeat_reduce
     rnd = random.Random(seed)
     cz = Cz(rnd)
+    cz.numeric = seed % 2 == 0
     tr = []
     def one_case(c):
         if c[0] == "merge":
@@ -133,12 +139,13 @@ def streams(maxlen, tmax=5, dmax=3):
     return out
 
 
-def run_loop(ds, kind, rnd, uniq, stream, p2):
+def run_loop(ds, kind, rnd, uniq, stream, p2, decoy=None):
     from aw_core.models import Event
     from aw_transform import heartbeat_merge, heartbeat_reduce
     cz = Cz(rnd)
     cz.eps = timedelta(microseconds=rnd.choice([0, 0, 0, 4, 996, 500, 123]))
     cz.iso = rnd.random() < 0.4
+    cz.numeric = rnd.random() < 0.3
     bn, sn = "hb-%s" % uniq, "hbspect-%s" % uniq
     if rnd.random() < 0.4:
         sn = bn.swapcase() if bn.swapcase() != bn else bn.upper()      # another bucket whose id differs only in letter case
@@ -147,6 +154,9 @@ def run_loop(ds, kind, rnd, uniq, stream, p2):
     sev = [{"ts": 0, "dur": 2, "d": "s"}, {"ts": 2, "dur": 0, "d": "s"}, {"ts": 1, "dur": 4, "d": "s"}] + \
           [dict(e, d="s") for e in stream[:2]]
     spect.insert([cz.ev(e, Event) for e in sev])
+    if decoy is not None:
+        # another Datastore object of the same process already has a bucket with this very id (holding something else)
+        decoy.create_bucket(bn, "t", "c", "other-host").insert(cz.ev({"ts": 0, "dur": 9, "d": "s"}, Event))
     b = ds.create_bucket(bn, "t", "c", "h")
     # half of the runs: a twin bucket in the same database is fed the very same stream, interleaved heartbeat by heartbeat
     twin = ds.create_bucket(bn + "-twin", "t", "c", "h") if rnd.random() < 0.5 else None
@@ -181,6 +191,8 @@ def run_loop(ds, kind, rnd, uniq, stream, p2):
         ds.delete_bucket(bn + "-twin")
     ds.delete_bucket(bn)
     ds.delete_bucket(sn)
+    if decoy is not None:
+        decoy.delete_bucket(bn)
     return tr
 
 
@@ -189,11 +201,12 @@ def _loop_worker(args):
     rnd = random.Random(seed)
     root = common.scratch_dir("h%d_%s_%d" % (os.getpid(), kind, seed % 100000))
     ds = store.mk_datastore(kind, root)
+    decoy = store.mk_datastore("memory", root)          # a second Datastore object alive in the same process
     out = []
     try:
         for n, (key, stream, p2) in enumerate(jobs):
             try:
-                trace = run_loop(ds, kind, rnd, "%s-%d" % (key, n), stream, p2)
+                trace = run_loop(ds, kind, rnd, "%s-%d" % (key, n), stream, p2, decoy if n % 3 == 0 else None)
             except Exception as e:      # the client loop never raises on the unchanged stores; the (partial) run is judged as a raise
                 trace = [{"op": "raised", "fn": "loop", "exc": type(e).__name__, "inp": json.dumps(stream)[:300]}]
                 store.close_datastore(kind, ds)
